@@ -196,23 +196,29 @@ for _cn, (_cv, _valid) in IDX_CONTAINERS.items():
 NEED_FN = {"break-outside-loop", "continue-outside-loop"}   # meaningless inside a loop host
 HOSTS = ["module", "fn", "closure", "method", "ctor", "elseif", "while", "from", "imported", "nested-block", "module-crlf", "fn-commented",
          "fn-int", "block-in-fn-int", "void-closure-block-in-fn-int", "int-closure-block-in-void-fn", "loop-in-method-int", "void-closure-else-in-method-int",
-         "void-closure-in-void-closure-in-fn-int"]
+         "void-closure-in-void-closure-in-fn-int",
+         # the fault stands BEHIND a point where its block has already returned on every path (unreachable, but type-checked like everything else)
+         "fn-int-after-return", "fn-int-after-all-returning-if", "method-int-after-all-returning-elif", "loop-in-fn-int-after-return", "else-in-fn-int-after-return"]
 # what the function that immediately encloses the fault position returns
 HOST_RET = {"module": "module", "fn": "void", "closure": "void", "method": "void", "ctor": "void", "elseif": "module", "while": "module", "from": "module",
             "imported": "module", "nested-block": "module", "module-crlf": "module", "fn-commented": "void", "fn-int": "int", "block-in-fn-int": "int",
             "void-closure-block-in-fn-int": "void", "int-closure-block-in-void-fn": "int", "loop-in-method-int": "int",
-            "void-closure-else-in-method-int": "void", "void-closure-in-void-closure-in-fn-int": "void"}
+            "void-closure-else-in-method-int": "void", "void-closure-in-void-closure-in-fn-int": "void",
+            "fn-int-after-return": "int", "fn-int-after-all-returning-if": "int", "method-int-after-all-returning-elif": "int", "loop-in-fn-int-after-return": "int",
+            "else-in-fn-int-after-return": "int"}
 
 
 def build(host, fault):
     """-> (files, (file with the fault, first line, last line)) ; None when inexpressible"""
     flines = FAULTS[fault]
-    if fault in NEED_FN and host in ("while", "from", "loop-in-method-int", "void-closure-in-void-closure-in-fn-int"):
+    if fault in NEED_FN and host in ("while", "from", "loop-in-method-int", "void-closure-in-void-closure-in-fn-int", "loop-in-fn-int-after-return"):
         return None
     if fault == "ret-value-here" and HOST_RET[host] == "int":
         return None           # legal there
     if fault == "ret-bare-here" and (HOST_RET[host] != "int" or host == "fn-int"):
         return None           # legal there (in fn-int the next line would be read as the returned expression: statements are not separated by newlines)
+    if ("-after-return" in host or "-after-all-returning-" in host) and flines[0].lstrip()[:1] in ("[", "(", "-"):
+        return None           # newlines do not separate statements: behind `return 0` such a line would continue the returned expression
     main = ['print "MARK"']
     faultfile = "x.ms"
 
@@ -258,6 +264,26 @@ def build(host, fault):
     elif host == "void-closure-in-void-closure-in-fn-int":
         lines = main + CLASS + ["host = fn() -> int {", "\tmid = fn() {", "\t\tinner = fn() {", "\t\t\twq = 0", "\t\t\twhile wq < 1 {", "\t\t\t\twq = wq + 1"] \
             + body(4) + ["\t\t\t}", "\t\t}", "\t\tinner()", "\t}", "\tmid()", "\treturn 0", "}", "hq = host()"]
+    elif host.endswith("-after-return") or "-after-all-returning-" in host:
+        def split(ind):
+            p = "\t" * ind
+            return [p + x for x in SETUP], [p + x for x in flines]
+        if host == "fn-int-after-return":
+            su, fl = split(1)
+            lines = main + CLASS + ["host = fn() -> int {"] + su + ["\treturn 0"] + fl + ["}", "hq = host()"]
+        elif host == "fn-int-after-all-returning-if":
+            su, fl = split(1)
+            lines = main + CLASS + ["host = fn() -> int {"] + su + ["\tif n == 1 {", "\t\treturn 1", "\t} else {", "\t\treturn 2", "\t}"] + fl + ["}", "hq = host()"]
+        elif host == "method-int-after-all-returning-elif":
+            su, fl = split(2)
+            lines = main + CLASS + ["class Host {", "\tconstructor(self) {}", "\tfn run(self) -> int {"] + su + \
+                ["\t\tif n == 1 {", "\t\t\treturn 1", "\t\t} else if n == 2 {", "\t\t\treturn 2", "\t\t} else {", "\t\t\treturn 3", "\t\t}"] + fl + ["\t}", "}", "hh = Host()", "hq = hh.run()"]
+        elif host == "loop-in-fn-int-after-return":
+            su, fl = split(2)
+            lines = main + CLASS + ["host = fn() -> int {", "\tfrom 0 to 1 {"] + su + ["\t\treturn 5"] + fl + ["\t}", "\treturn 0", "}", "hq = host()"]
+        else:
+            su, fl = split(2)
+            lines = main + CLASS + ["host = fn() -> int {", "\tif 1 == 2 {", "\t\treturn 1", "\t} else {"] + su + ["\t\treturn 5"] + fl + ["\t}", "\treturn 0", "}", "hq = host()"]
     elif host == "module-crlf":
         # the same module with CR LF line ends: positions must not drift
         lines = main + CLASS + body(0)
